@@ -24,17 +24,9 @@ TEXT["C18"] = dict(
     technique="TLA+ decision-list model + TLC exhaustive feature product; real-code runs validated by TLC against spec/trace/TableTrace.tla")
 
 NOT_APPLICABLE = {
- "C01": "check under construction in this round (spec/Distiller.tla root/option machine); not yet registered",
  "C06": "check under construction in this round (spec/UrlResolve.tla); not yet registered",
- "C10": "check under construction in this round; not yet registered",
- "C11": "check under construction in this round; not yet registered",
- "C12": "check under construction in this round; not yet registered",
- "C13": "check under construction in this round; not yet registered",
  "C14": "check under construction in this round; not yet registered",
  "C15": "check under construction in this round; not yet registered",
  "C16": "check under construction in this round; not yet registered",
  "C17": "check under construction in this round; not yet registered",
- "C18": "check under construction in this round; not yet registered",
- "C19": "check under construction in this round; not yet registered",
- "C20": "check under construction in this round; not yet registered",
 }
